@@ -90,6 +90,21 @@ _FIELD_VALUE_FORBIDDEN_CTL_RE: Final[Pattern[str]] = re.compile(
 VERSRE: Final[Pattern[str]] = re.compile(r"HTTP/(\d)\.(\d)", re.ASCII)
 DIGITS: Final[Pattern[str]] = re.compile(r"\d+", re.ASCII)
 HEXDIGITS: Final[Pattern[bytes]] = re.compile(rb"[0-9a-fA-F]+")
+# https://www.rfc-editor.org/rfc/rfc9112#section-7.1.1
+#     chunk-ext = *( BWS ";" BWS chunk-ext-name [ BWS "=" BWS chunk-ext-val ] )
+_EXT_TOKEN: Final[bytes] = rb"[!#$%&'*+\-.^_`|~0-9A-Za-z]+"
+_EXT_QUOTED: Final[bytes] = (
+    rb'"(?:[\t \x21\x23-\x5b\x5d-\x7e\x80-\xff]|\\[\t \x21-\x7e\x80-\xff])*"'
+)
+_CHUNK_EXT_RE: Final[Pattern[bytes]] = re.compile(
+    rb"(?:[ \t]*;[ \t]*"
+    + _EXT_TOKEN
+    + rb"(?:[ \t]*=[ \t]*(?:"
+    + _EXT_TOKEN
+    + rb"|"
+    + _EXT_QUOTED
+    + rb"))?)*[ \t]*"
+)
 
 # RFC 9110 singleton headers — duplicates are rejected in strict mode.
 # In lax mode (response parser default), the check is skipped entirely
@@ -1068,6 +1083,14 @@ class HttpPayloadParser:
                             if b"\n" in (ext := chunk[i:pos]):
                                 exc = TransferEncodingError(
                                     f"Unexpected LF in chunk-extension: {ext!r}"
+                                )
+                                set_exception(self.payload, exc)
+                                raise exc
+                            if not self._lax and not _CHUNK_EXT_RE.fullmatch(ext):
+                                # Control bytes, a bare CR, an unterminated
+                                # quoted string: not a chunk-ext
+                                exc = TransferEncodingError(
+                                    f"Invalid chunk-extension: {bytes(ext[:100])!r}"
                                 )
                                 set_exception(self.payload, exc)
                                 raise exc
